@@ -14,29 +14,11 @@ Local Open Scope Z_scope.
    and a read-only parameter yields its default.  [sources] lists them in that order. *)
 Theorem C38_lookup_precedence : forall st idx p,
   get_param (st_params st) idx = Some p ->
-  p_over p <> Some (VStr None) ->
   snd (param_lookup st idx) =
     if p_ro p then LFound (p_default p) SDefault None
     else found (first_some (fun x => x) (sources st p)).
 Proof. exact lookup_precedence. Qed.
 Print Assumptions C38_lookup_precedence.
-
-(* The same statement without the side condition on the override is FALSE of the code:
-   parsec_mca_param_set_string(index, NULL) is accepted (param_set_override stores NULL and sets
-   mbp_override_value_set) and every later lookup runs strdup(NULL) in lookup_override. *)
-Theorem C38_lookup_precedence_null_override_refuted : exists st idx p,
-  get_param (st_params st) idx = Some p /\
-  snd (param_lookup st idx) <>
-    (if p_ro p then LFound (p_default p) SDefault None
-     else found (first_some (fun x => x) (sources st p))).
-Proof.
-  exists (run (init [] [])
-              [OReg TString (Some ["t"]%char) (Some ["s"]%char) false false
-                    (VStr (Some ["d"]%char)) false;
-               OSet 1 (VStr None)]), 1.
-  eexists. split; [vm_compute; reflexivity|]. vm_compute. discriminate.
-Qed.
-Print Assumptions C38_lookup_precedence_null_override_refuted.
 
 (* ---- lookups are stable: repeating a lookup returns the same value and leaves the state
    (file-value cache included) as the first one left it *)
@@ -79,7 +61,7 @@ Print Assumptions C38_setenv_other.
 
 (* ---- the override *)
 Theorem C38_set_then_lookup : forall st idx p v,
-  get_param (st_params st) idx = Some p -> type_of v = p_type p -> is_null_str v = false ->
+  get_param (st_params st) idx = Some p -> type_of v = p_type p ->
   snd (param_lookup (fst (set_value st idx v)) idx) =
     if p_ro p then LFound (p_default p) SDefault None else LFound v SOverride None.
 Proof. exact set_then_lookup. Qed.
@@ -117,7 +99,7 @@ Print Assumptions C38_reg_syn_names.
 
 (* ---- read-only parameters ignore override, environment and files *)
 Theorem C38_read_only : forall st idx p,
-  get_param (st_params st) idx = Some p -> p_ro p = true -> p_over p <> Some (VStr None) ->
+  get_param (st_params st) idx = Some p -> p_ro p = true ->
   snd (param_lookup st idx) = LFound (p_default p) SDefault None.
 Proof. exact read_only_default. Qed.
 Print Assumptions C38_read_only.
